@@ -40,6 +40,14 @@ class Ctx:
         self.obligations, self.discharged, self.theorems = ob, di, details
         for p in problems:
             self.broken("proof", p)
+        if self.tier == "thorough" and shutil.which("leanchecker"):
+            # independent re-check of the compiled proofs of this property (and everything they import) by the
+            # toolchain's stand-alone kernel checker
+            with common.Lock("lean"):
+                r = run(["lake", "env", "leanchecker", f"GopatchModel.Props.{self.pid}"], cwd=common.LEAN, timeout=1800)
+            self.extra["leanchecker"] = "ok" if r.returncode == 0 else "failed"
+            if r.returncode != 0:
+                self.broken("proof", "leanchecker rejects the compiled proofs: " + (r.stdout + r.stderr)[-800:])
 
     def scratch(self, name="s"):
         d = common.scratch(self.pid + "-" + name)
